@@ -1,14 +1,37 @@
 //! C07 — resource limits are enforced and tail calls run in constant stack.
+//!
+//! The parent process is a scheduler: every piece of work that touches the real implementation
+//! is a *task* run in a child process (so that an abort / native stack overflow / hang of the
+//! implementation is an outcome).  A task returns correspondence cases (request for the Lean
+//! driver + the implementation's payload), property-oracle failures, counts and observations.
+//!
+//!  gc        random op sequences on the real `gluon_vm::gc::Gc`  ~ `GcAccount.step`
+//!  verify    every function of compiled programs: real bytecode + declared max_stack_size
+//!            ~ `StackVerify.verify`; Rust-side height interpreter as the independent oracle
+//!  stack     recursion families: bisected stack-limit threshold and observed peak frame count of
+//!            the real VM ~ `CallStack.run` on the script derived from the real bytecode
+//!  mem       allocation-heavy programs: ladder of memory limits, `allocated_memory() <= limit`,
+//!            accounting == sum of heap objects, OOM `needed` ~ `GcAccount.firstOom`
+//!  deep      10^6-deep recursion / data: must end in ok / StackOverflow / OutOfMemory, no crash
+//!  interrupt `Thread::interrupt` from another OS thread stops an endless loop promptly
 #[path = "c07/bytecode.rs"]
 mod bytecode;
+#[path = "c07/families.rs"]
+mod families;
 
-use bytecode::{compile, fn_sexp, heights, Compiled, Heights};
+use bytecode::{compile, fn_sexp, heights, Compiled, FnDump, Heights};
 use gluon::compiler_pipeline::Executable;
-use gluon::vm::thread::ThreadInternal;
+use gluon::vm::gc::{CollectScope, DataDef, Gc, GcPtr, Generation, Trace};
+use gluon::vm::stack::State;
+use gluon::vm::thread::{HookFlags, ThreadInternal};
+use gluon::vm::types::Instruction;
 use gluon::vm::Error as VmError;
 use gluon::{RootedThread, Thread, ThreadExt};
 use gv::{Args, Out};
-use std::time::Duration;
+use serde_json::{json, Value};
+use std::sync::atomic::{AtomicUsize, Ordering};
+use std::sync::Arc;
+use std::time::{Duration, Instant};
 
 #[derive(Debug, Clone, PartialEq)]
 pub enum Outcome {
@@ -27,6 +50,8 @@ impl Outcome {
             Outcome::Stack(_) => "err:stack".into(),
             Outcome::Oom { .. } => "err:oom".into(),
             Outcome::Interrupted => "err:interrupted".into(),
+            // an OutOfMemory raised inside an extern primitive comes back as `Error::Panic(text)`
+            Outcome::Other(m) if m.contains("Thread is out of memory") => "err:oom-as-panic".into(),
             Outcome::Other(m) => format!("err:other:{}", gv::surf::classify_error(m)),
             Outcome::Panic(m) => format!("panic:{}", m.chars().take(60).collect::<String>()),
         }
@@ -60,19 +85,760 @@ fn run(vm: &Thread, name: &str, c: Compiled) -> Outcome {
     }
 }
 
+#[derive(Default, Clone, Debug)]
+struct Limits {
+    stack: Option<u32>,
+    mem: Option<usize>,
+    hook: bool,
+}
+
+#[derive(Debug)]
+struct Obs {
+    outcome: Outcome,
+    before: usize,
+    after: usize,
+    heap_sum: usize,
+    peak_frames: usize,
+    values_after: u32,
+    frames_after: usize,
+    fns: Vec<FnDump>,
+}
+
+/// Fresh VM, compile, configure the limits, run, observe.
+fn run_fresh(name: &str, src: &str, lim: &Limits) -> Result<Obs, String> {
+    let vm = new_vm();
+    let c = compile(&vm, name, src)?;
+    let fns = c.fns.clone();
+    let peak = Arc::new(AtomicUsize::new(0));
+    if let Some(s) = lim.stack {
+        vm.context().set_max_stack_size(s);
+    }
+    if lim.hook {
+        let p = peak.clone();
+        let mut ctx = vm.context();
+        ctx.set_hook(Some(Box::new(move |_, info| {
+            p.fetch_max(info.stack_info_len(), Ordering::Relaxed);
+            std::task::Poll::Ready(Ok(()))
+        })));
+        ctx.set_hook_mask(HookFlags::CALL_FLAG);
+    }
+    let before = vm.allocated_memory();
+    if let Some(m) = lim.mem {
+        vm.set_memory_limit(m);
+    }
+    let outcome = run(&vm, name, c);
+    let after = vm.allocated_memory();
+    let (_, objs) = vm.verif_heap();
+    let heap_sum = objs.iter().map(|o| o.1).sum();
+    let (values_after, frames_after) = {
+        let mut ctx = vm.context();
+        let f = ctx.frame_level();
+        (ctx.stack_frame::<State>().len(), f)
+    };
+    Ok(Obs { outcome, before, after, heap_sum, peak_frames: peak.load(Ordering::Relaxed), values_after, frames_after, fns })
+}
+
+/// What a task hands back to the parent.
+#[derive(Default)]
+struct TaskOut {
+    cases: Vec<(String, String)>,
+    oracle: Vec<Value>,
+    counts: std::collections::BTreeMap<String, u64>,
+    classes: Vec<String>,
+    samples: Vec<Value>,
+    obs: Value,
+}
+
+impl TaskOut {
+    fn count(&mut self, k: &str) {
+        *self.counts.entry(k.to_string()).or_default() += 1;
+    }
+    fn fail(&mut self, fp: &str, what: &str, replay: Value) {
+        self.oracle.push(json!({"fingerprint": fp, "what": what, "replay": replay}));
+    }
+    fn to_json(&self) -> String {
+        json!({"cases": self.cases, "oracle": self.oracle, "counts": self.counts, "classes": self.classes,
+               "samples": self.samples, "obs": self.obs})
+        .to_string()
+    }
+}
+
+// ------------------------------------------------------------------------------------ gc task
+
+struct Roots<T>(Vec<GcPtr<T>>);
+unsafe impl<T: Trace> Trace for Roots<T> {
+    fn trace(&self, gc: &mut Gc) {
+        for p in &self.0 {
+            p.trace(gc);
+        }
+    }
+}
+impl<T> CollectScope for Roots<T> {
+    fn scope<F>(&self, gc: &mut Gc, f: F)
+    where
+        F: FnOnce(&mut Gc),
+    {
+        f(gc)
+    }
+}
+
+fn gc_debug_field(gc: &Gc, field: &str) -> u64 {
+    let s = format!("{:?}", gc);
+    let key = format!("{}: ", field);
+    let i = s.find(&key).expect("field in Debug of Gc") + key.len();
+    s[i..].chars().take_while(|c| c.is_ascii_digit()).collect::<String>().parse().unwrap()
+}
+
+type VStr = <&'static str as DataDef>::Value;
+
+fn task_gc(seed: u64, n: u64, t: &mut TaskOut) {
+    let mut rng = gv::rng::Rng::new(seed, 0xC07A);
+    // `GcHeader::value_offset()` is private: observed on a scratch heap, must be the same for
+    // every object
+    let hdr0 = {
+        let mut g = Gc::new(Generation::default(), usize::MAX);
+        let _ = g.alloc("abc").unwrap();
+        let h = g.allocated_memory() - DataDef::size(&"abc");
+        unsafe { g.clear() };
+        h
+    };
+    for seq in 0..n {
+        let limit: usize = match rng.below(8) {
+            0 => usize::MAX / 4,
+            1 => 40 + rng.below(200) as usize,
+            _ => 200 + rng.below(4000) as usize,
+        };
+        let mut gc = Gc::new(Generation::default(), limit);
+        let mut cur_limit = limit;
+        // newest first, like the model's `objs`
+        let mut objs: Vec<(usize, usize)> = vec![]; // (address, size)
+        let mut ptrs: Vec<GcPtr<VStr>> = vec![];
+        let nops = 3 + rng.below(40);
+        let mut ops = String::new();
+        let mut results = String::new();
+        let mut pure = true; // no alloc_ignore_limit / set_limit so far
+        let mut kinds = std::collections::BTreeSet::new();
+        let mut saw_oom = false;
+        let mut saw_collect = false;
+        let mut hdr: Option<usize> = Some(hdr0);
+        for _ in 0..nops {
+            let len = match rng.below(4) {
+                0 => rng.below(8) as usize,
+                1 => rng.below(64) as usize,
+                _ => rng.below(600) as usize,
+            };
+            let s = "x".repeat(len);
+            let size = DataDef::size(&s.as_str());
+            let marks: Vec<bool> = objs.iter().map(|_| rng.chance(2, 3)).collect();
+            let marks_s: Vec<&str> = marks.iter().map(|m| if *m { "1" } else { "0" }).collect();
+            let keep = || -> Roots<_> {
+                Roots(
+                    ptrs.iter()
+                        .zip(marks.iter())
+                        .filter(|(_, m)| **m)
+                        .map(|(p, _): (&GcPtr<_>, _)| unsafe { p.unrooted() })
+                        .collect(),
+                )
+            };
+            let res: Result<(), (usize, usize)>;
+            let k = rng.below(10);
+            let mut new_ptr = None;
+            match k {
+                0..=3 => {
+                    kinds.insert("alloc");
+                    ops.push_str(&format!("(a {}) ", size));
+                    match gc.alloc(s.as_str()) {
+                        Ok(p) => {
+                            new_ptr = Some(unsafe { p.unrooted() });
+                            res = Ok(());
+                        }
+                        Err(VmError::OutOfMemory { limit, needed }) => res = Err((limit, needed)),
+                        Err(e) => panic!("unexpected gc error {}", e),
+                    }
+                }
+                4..=5 => {
+                    kinds.insert("alloc_and_collect");
+                    ops.push_str(&format!("(ac ({}) {}) ", marks_s.join(" "), size));
+                    let roots = keep();
+                    match unsafe { gc.alloc_and_collect(roots, s.as_str()) } {
+                        Ok(p) => {
+                            new_ptr = Some(unsafe { gluon::vm::gc::GcRef::from(p).unrooted() });
+                            res = Ok(());
+                        }
+                        Err(VmError::OutOfMemory { limit, needed }) => res = Err((limit, needed)),
+                        Err(e) => panic!("unexpected gc error {}", e),
+                    }
+                }
+                6 => {
+                    kinds.insert("alloc_ignore_limit");
+                    pure = false;
+                    ops.push_str(&format!("(i {}) ", size));
+                    let p = gc.alloc_ignore_limit(s.as_str());
+                    new_ptr = Some(unsafe { p.unrooted() });
+                    res = Ok(());
+                }
+                7..=8 => {
+                    kinds.insert("collect");
+                    ops.push_str(&format!("(c ({})) ", marks_s.join(" ")));
+                    let roots = keep();
+                    unsafe { gc.collect(roots) };
+                    res = Ok(());
+                }
+                _ => {
+                    kinds.insert("set_memory_limit");
+                    let l = 100 + rng.below(4000) as usize;
+                    if l < cur_limit {
+                        pure = false;
+                    }
+                    cur_limit = l;
+                    ops.push_str(&format!("(l {}) ", l));
+                    gc.set_memory_limit(l);
+                    res = Ok(());
+                }
+            }
+            // which objects survived (a collection may have run)
+            let live: std::collections::HashMap<usize, usize> =
+                gc.verif_objects().iter().map(|o| (o.0, o.1)).collect();
+            let mut k2 = 0;
+            let before_n = objs.len();
+            // a freed object's address may be reused by the object allocated in the same step
+            let new_addr = new_ptr.as_ref().map(|p| &**p as *const _ as *const () as usize);
+            while k2 < objs.len() {
+                if live.contains_key(&objs[k2].0) && Some(objs[k2].0) != new_addr {
+                    k2 += 1;
+                } else {
+                    objs.remove(k2);
+                    ptrs.remove(k2);
+                }
+            }
+            if objs.len() < before_n {
+                saw_collect = true;
+            }
+            if let Some(p) = new_ptr {
+                let addr = &*p as *const _ as *const () as usize;
+                let sz = *live.get(&addr).expect("new object is in the heap list");
+                let h0 = *hdr.get_or_insert(sz - size);
+                if sz != h0 + size {
+                    t.fail("gc:object-size", &format!("object of value size {} is accounted as {}", size, sz), json!({"task": "gc", "seed": seed, "seq": seq}));
+                }
+                objs.insert(0, (addr, sz));
+                ptrs.insert(0, p);
+            }
+            let allocated = gc.allocated_memory();
+            match res {
+                Ok(()) => results.push_str(&format!("(ok {}) ", allocated)),
+                Err((l, nd)) => {
+                    saw_oom = true;
+                    results.push_str(&format!("((oom {} {}) {}) ", l, nd, allocated))
+                }
+            }
+            // property oracle, straight from the statement
+            let sum: usize = live.values().sum();
+            if sum != allocated {
+                t.fail("gc:accounting-drift", &format!("allocated_memory() = {} but the heap holds {} bytes", allocated, sum), json!({"task": "gc", "seed": seed, "seq": seq, "ops": ops}));
+            }
+            if pure && allocated > cur_limit {
+                t.fail("gc:over-limit", &format!("allocated_memory() = {} exceeds the limit {}", allocated, cur_limit), json!({"task": "gc", "seed": seed, "seq": seq, "ops": ops}));
+            }
+        }
+        let req = format!("gc {} {} ({})", hdr.unwrap_or(hdr0), limit, ops.trim_end());
+        let payload = format!(
+            "(({}) {} {} {})",
+            results.trim_end(),
+            gc.allocated_memory(),
+            gc_debug_field(&gc, "collect_limit"),
+            gc.verif_objects().len()
+        );
+        t.cases.push((req, payload));
+        t.count("gc:sequences");
+        if kinds.len() >= 3 {
+            t.classes.push(format!("gc:{:?}:oom={}:freed={}", kinds, saw_oom, saw_collect));
+        }
+        ptrs.clear();
+        unsafe { gc.clear() };
+    }
+}
+
+// -------------------------------------------------------------------------------- verify task
+
+fn is_forward(f: &FnDump) -> bool {
+    f.instrs.iter().enumerate().all(|(pc, i)| match i {
+        Instruction::Jump(t) | Instruction::CJump(t) => (*t as usize) > pc,
+        _ => true,
+    })
+}
+
+/// Correspondence case + oracle for every function of a compiled program.
+fn verify_fns(fns: &[FnDump], what: &str, replay: &Value, t: &mut TaskOut) {
+    for f in fns {
+        match heights(f) {
+            Heights::Unsupported(w) => t.count(&format!("verify:skipped:{}", w)),
+            Heights::Bad(pc, w) => {
+                let kind = w.split(' ').next().unwrap_or("?").to_string();
+                t.fail(
+                    &format!("static-height:{}:{}", kind, bytecode::instr_sexp(&f.instrs[pc.min(f.instrs.len() - 1)]).split(|c| c == ' ' || c == ')').next().unwrap().trim_start_matches('(')),
+                    &format!("frame height of `{}` ({}) is not well defined at pc {}: {}", f.name, what, pc, w),
+                    replay.clone(),
+                );
+                t.cases.push((format!("verify {}", fn_sexp(f)), "(unverifiable)".into()));
+            }
+            Heights::Ok(hs, peak) => {
+                if peak > f.max_stack_size {
+                    t.fail(
+                        "static-bound-exceeded",
+                        &format!("`{}` ({}) reaches frame height {} but declares max_stack_size {}", f.name, what, peak, f.max_stack_size),
+                        replay.clone(),
+                    );
+                } else if peak < f.max_stack_size {
+                    t.count("verify:bound-loose");
+                } else {
+                    t.count("verify:bound-exact");
+                }
+                if !is_forward(f) {
+                    t.fail("backward-jump", &format!("`{}` ({}) contains a backward jump: a body may run unboundedly long between two interrupt polls", f.name, what), replay.clone());
+                }
+                let exits: Vec<String> = f
+                    .instrs
+                    .iter()
+                    .enumerate()
+                    .filter(|(_, i)| matches!(i, Instruction::Call(_) | Instruction::TailCall(_) | Instruction::Return))
+                    .filter_map(|(pc, _)| hs[pc].map(|h| format!("({} {})", pc, h)))
+                    .collect();
+                // the implementation's claim: the declared bound suffices ("within")
+                t.cases.push((
+                    format!("verify {}", fn_sexp(f)),
+                    format!("(ok {} within {} ({}))", peak, if is_forward(f) { "fwd" } else { "back" }, exits.join(" ")),
+                ));
+                t.count("verify:functions");
+                let calls = f.instrs.iter().filter(|i| matches!(i, Instruction::Call(_) | Instruction::TailCall(_))).count();
+                let branches = f.instrs.iter().filter(|i| matches!(i, Instruction::CJump(_))).count();
+                if calls >= 1 && branches >= 1 {
+                    use std::hash::{Hash, Hasher};
+                    let mut h = std::collections::hash_map::DefaultHasher::new();
+                    fn_sexp(f).hash(&mut h);
+                    t.classes.push(format!("verify:{:016x}", h.finish()));
+                }
+            }
+        }
+    }
+}
+
+fn task_verify_surf(seed: u64, n: u64, t: &mut TaskOut) {
+    let vm = new_vm();
+    let mut rng = gv::rng::Rng::new(seed, 0xC07B);
+    for i in 0..n {
+        let mut g = gv::surf::Gen::new(&mut rng);
+        let (e, _) = g.program(2 + (i % 4) as u32);
+        let src = gv::surf::program_text(&e);
+        for c in gv::surf::constructs(&e) {
+            t.count(&format!("construct:{}", c));
+        }
+        match compile(&vm, &format!("s{}", i), &src) {
+            Err(e) => t.count(&format!("verify:compile-error:{}", gv::surf::classify_error(&e).chars().take(40).collect::<String>())),
+            Ok(c) => verify_fns(&c.fns, "generated program", &json!({"task": "verify", "source": src}), t),
+        }
+    }
+}
+
+// --------------------------------------------------------------------------------- stack task
+
+fn stack_run(name: &str, src: &str, limit: u32, hook: bool) -> Result<Obs, String> {
+    run_fresh(name, src, &Limits { stack: Some(limit), mem: None, hook })
+}
+
+/// Smallest stack limit under which the program completes (None: does not complete below `cap`).
+fn threshold(name: &str, src: &str, cap: u32) -> Result<Option<u32>, String> {
+    let ok = |l: u32| -> Result<bool, String> {
+        match stack_run(name, src, l, false)?.outcome {
+            Outcome::Ok(_) => Ok(true),
+            Outcome::Stack(_) => Ok(false),
+            o => Err(format!("unexpected outcome {:?} under stack limit {}", o, l)),
+        }
+    };
+    let mut hi = 16u32;
+    while !ok(hi)? {
+        if hi >= cap {
+            return Ok(None);
+        }
+        hi = (hi * 2).min(cap);
+    }
+    let mut lo = 0u32; // fails (the host's push + frame need at least 1)
+    while hi - lo > 1 {
+        let mid = lo + (hi - lo) / 2;
+        if ok(mid)? {
+            hi = mid
+        } else {
+            lo = mid
+        }
+    }
+    Ok(Some(hi))
+}
+
+fn task_stack(family: &str, n: u64, known_threshold: Option<u32>, seed: u64, t: &mut TaskOut) {
+    let src = families::source(family, n);
+    let name = "fam";
+    let replay = json!({"task": "stack", "family": family, "n": n, "source": src});
+    let fam = families::STACK_FAMILIES.iter().find(|f| f.name == family).unwrap();
+    // unlimited run: the value and the dump
+    let base = match run_fresh(name, &src, &Limits { hook: true, ..Default::default() }) {
+        Ok(o) => o,
+        Err(e) => {
+            t.fail(&format!("family-does-not-compile:{}", family), &e, replay);
+            return;
+        }
+    };
+    if base.outcome != Outcome::Ok(families::expected_value(family, n)) {
+        t.fail(&format!("wrong-result:{}", family), &format!("expected {} got {:?}", families::expected_value(family, n), base.outcome), replay.clone());
+        return;
+    }
+    verify_fns(&base.fns, family, &replay, t);
+    let thr = match known_threshold {
+        Some(x) => Some(x),
+        None => match threshold(name, &src, 1 << 27) {
+            Ok(x) => x,
+            Err(e) => {
+                t.fail(&format!("limit-outcome:{}", family), &e, replay.clone());
+                return;
+            }
+        },
+    };
+    let thr = match thr {
+        Some(x) => x,
+        None => {
+            t.count("stack:no-threshold");
+            return;
+        }
+    };
+    let scripted = gv::catch(|| families::script(family, n, &base.fns)).unwrap_or_else(|p| Err(families::SimError(p)));
+    let (tbl, evs) = match scripted {
+        Ok(x) => x,
+        Err(e) => {
+            t.count(&format!("stack:script-unavailable:{}", family));
+            t.samples.push(json!({"script-unavailable": family, "why": e.0}));
+            t.obs = json!({"family": family, "n": n, "threshold": thr, "peak_frames": base.peak_frames});
+            return;
+        }
+    };
+    let mut rng = gv::rng::Rng::new(seed ^ n, 0xC07C);
+    let mut limits = vec![thr, thr.saturating_sub(1), thr + 1, 1, 2];
+    if known_threshold.is_none() {
+        for _ in 0..3 {
+            limits.push(1 + rng.below(thr as u64 + 8) as u32);
+        }
+    }
+    limits.sort();
+    limits.dedup();
+    let mut peak_at_thr = 0;
+    for l in limits {
+        let o = match stack_run(name, &src, l, true) {
+            Ok(o) => o,
+            Err(e) => {
+                t.fail(&format!("limit-outcome:{}", family), &e, replay.clone());
+                continue;
+            }
+        };
+        let payload = match &o.outcome {
+            Outcome::Ok(v) => {
+                if *v != families::expected_value(family, n) {
+                    t.fail(&format!("wrong-result-under-limit:{}", family), &format!("stack limit {}: {}", l, v), replay.clone());
+                }
+                if l == thr {
+                    peak_at_thr = o.peak_frames;
+                }
+                format!("(ok {} {} {})", o.values_after, o.frames_after, o.peak_frames)
+            }
+            Outcome::Stack(reported) => {
+                if *reported != l {
+                    t.fail("stack-overflow-reports-wrong-limit", &format!("limit {} reported as {}", l, reported), replay.clone());
+                }
+                "overflow".to_string()
+            }
+            other => {
+                // the property: completes or fails with the corresponding error
+                t.fail(&format!("limit-outcome:{}:{}", family, other.class()), &format!("stack limit {} on {}: {:?}", l, family, other), replay.clone());
+                format!("(unexpected {})", gv::quote(&other.class()))
+            }
+        };
+        t.cases.push((format!("stack {} ({}) ({})", l, tbl, evs), payload));
+        t.count(&format!("stack:{}:{}", family, if o.outcome.class() == "ok" { "ok" } else { "overflow" }));
+        t.classes.push(format!("stack:{}:n={}:{}", family, n, if l >= thr { "ok" } else { "overflow" }));
+    }
+    if fam.tail && base.peak_frames != peak_at_thr && peak_at_thr != 0 {
+        t.fail(&format!("peak-frames-depend-on-limit:{}", family), "frame count differs with and without a limit", replay.clone());
+    }
+    t.obs = json!({"family": family, "n": n, "threshold": thr, "peak_frames": base.peak_frames});
+}
+
+// ----------------------------------------------------------------------------------- mem task
+
+fn mem_check(o: &Obs, limit: Option<usize>, what: &str, replay: &Value, t: &mut TaskOut) {
+    if o.heap_sum != o.after {
+        t.fail(
+            "mem:accounting-drift",
+            &format!("{}: allocated_memory() = {} but the thread heap holds {} bytes", what, o.after, o.heap_sum),
+            replay.clone(),
+        );
+    }
+    if let Some(l) = limit {
+        // memory that was allocated before the limit was configured is not the program's
+        if o.after > l.max(o.before) {
+            let kind = match &o.outcome {
+                Outcome::Ok(_) => "ok".to_string(),
+                x => x.class().split(':').take(2).collect::<Vec<_>>().join(":"),
+            };
+            t.fail(
+                &format!("mem:over-limit:{}", kind),
+                &format!("{}: allocated_memory() = {} after the run exceeds the limit {} (before the run: {})", what, o.after, l, o.before),
+                replay.clone(),
+            );
+        }
+    }
+}
+
+fn task_mem(name: &str, src: &str, t: &mut TaskOut) {
+    let kind = name.split('#').next().unwrap();
+    let replay = json!({"task": "mem", "name": name, "source": src});
+    let base = match run_fresh("mem", src, &Limits::default()) {
+        Ok(o) => o,
+        Err(e) => {
+            t.fail(&format!("family-does-not-compile:{}", kind), &e, replay);
+            return;
+        }
+    };
+    mem_check(&base, None, "no limit", &replay, t);
+    verify_fns(&base.fns, kind, &replay, t);
+    let base_class = base.outcome.class();
+    if base_class != "ok" {
+        t.count(&format!("mem:base-outcome:{}", base_class));
+    }
+    // ladder: every new maximum of `needed`
+    let mut records: Vec<usize> = vec![];
+    let mut l = 1usize;
+    let mut complete = false;
+    for _ in 0..500 {
+        let replay_l = json!({"task": "mem", "name": name, "source": src, "limit": l});
+        let o = match run_fresh("mem", src, &Limits { mem: Some(l), ..Default::default() }) {
+            Ok(o) => o,
+            Err(e) => {
+                t.fail(&format!("family-does-not-compile:{}", kind), &e, replay_l);
+                return;
+            }
+        };
+        mem_check(&o, Some(l), &format!("limit {}", l), &replay_l, t);
+        match &o.outcome {
+            Outcome::Oom { limit, needed } => {
+                if *limit != l || *needed < l {
+                    t.fail("mem:oom-report", &format!("limit {}: OutOfMemory {{ limit: {}, needed: {} }}", l, limit, needed), replay_l);
+                    return;
+                }
+                records.push(*needed);
+                l = *needed + 1;
+            }
+            other => {
+                if other.class() != base_class {
+                    t.fail(
+                        &format!("mem:limit-outcome:{}", other.class().split(':').take(2).collect::<Vec<_>>().join(":")),
+                        &format!("memory limit {}: {:?} (without a limit: {})", l, other, base_class),
+                        replay_l,
+                    );
+                } else {
+                    complete = true;
+                }
+                break;
+            }
+        }
+    }
+    t.count(&format!("mem:{}:{}", kind, if complete { "ladder-complete" } else { "ladder-truncated" }));
+    t.count("mem:ladder-steps");
+    *t.counts.entry("mem:records".into()).or_default() += records.len() as u64;
+    if !complete || base_class != "ok" {
+        return;
+    }
+    let recs: Vec<String> = records.iter().map(|r| r.to_string()).collect();
+    let recs = recs.join(" ");
+    // outcome at limits around every record
+    let mut lims: Vec<usize> = vec![];
+    let step = (records.len() / 12).max(1);
+    for (i, r) in records.iter().enumerate() {
+        if i % step == 0 || i + 1 == records.len() {
+            lims.extend_from_slice(&[*r, r + 1, r.saturating_sub(1)]);
+        }
+    }
+    lims.sort();
+    lims.dedup();
+    for l in lims {
+        if l == 0 {
+            continue;
+        }
+        let replay_l = json!({"task": "mem", "name": name, "source": src, "limit": l});
+        let o = match run_fresh("mem", src, &Limits { mem: Some(l), ..Default::default() }) {
+            Ok(o) => o,
+            Err(_) => continue,
+        };
+        mem_check(&o, Some(l), &format!("limit {}", l), &replay_l, t);
+        let payload = match &o.outcome {
+            Outcome::Ok(_) => "ok".to_string(),
+            Outcome::Oom { limit, needed } => format!("(oom {} {})", limit, needed),
+            other => format!("(unexpected {})", gv::quote(&other.class())),
+        };
+        t.cases.push((format!("firstoom {} ({})", l, recs), payload));
+        t.classes.push(format!("mem:{}:records={}:{}", kind, records.len(), o.outcome.class()));
+    }
+}
+
+fn task_mem_surf(seed: u64, n: u64, t: &mut TaskOut) {
+    let mut rng = gv::rng::Rng::new(seed, 0xC07D);
+    for i in 0..n {
+        let mut g = gv::surf::Gen::new(&mut rng);
+        let (e, _) = g.program(2 + (i % 4) as u32);
+        let src = gv::surf::program_text(&e);
+        let base = match run_fresh("ms", &src, &Limits::default()) {
+            Ok(o) => o,
+            Err(_) => {
+                t.count("mem-surf:compile-error");
+                continue;
+            }
+        };
+        let replay = json!({"task": "mem-surf", "source": src});
+        mem_check(&base, None, "no limit", &replay, t);
+        let base_class = base.outcome.class();
+        if base_class.starts_with("panic") {
+            // D16 and friends belong to C01/C06; not a limit question
+            t.count("mem-surf:base-panics");
+            continue;
+        }
+        t.count(&format!("mem-surf:base:{}", base_class.split(' ').next().unwrap()));
+        let used = base.after.saturating_sub(base.before);
+        for _ in 0..3 {
+            let l = base.before + rng.below(2 * used as u64 + 200) as usize;
+            let replay_l = json!({"task": "mem-surf", "source": src, "limit": l});
+            let o = match run_fresh("ms", &src, &Limits { mem: Some(l), ..Default::default() }) {
+                Ok(o) => o,
+                Err(_) => continue,
+            };
+            mem_check(&o, Some(l), &format!("limit {}", l), &replay_l, t);
+            let c = o.outcome.class();
+            t.count(&format!("mem-surf:limited:{}", if c == "err:oom" { "oom" } else if c == base_class { "same" } else { "other" }));
+            if c != "err:oom" && c != base_class {
+                t.fail(
+                    &format!("mem:limit-outcome:{}", c.split(':').take(2).collect::<Vec<_>>().join(":")),
+                    &format!("memory limit {}: {} (without a limit: {})", l, c, base_class),
+                    replay_l,
+                );
+            }
+            for k in gv::surf::constructs(&e) {
+                if c == "err:oom" {
+                    t.classes.push(format!("mem-surf:oom-in:{}", k));
+                }
+            }
+        }
+    }
+}
+
+// ---------------------------------------------------------------------------- deep / interrupt
+
+fn deep_source(family: &str, n: u64) -> String {
+    match family {
+        "deep-list-tail" => format!(
+            "{}rec let build n acc = if n #Int== 0 then acc else build (n #Int- 1) (Cons n acc)\nrec let len l acc =\n    match l with\n    | Nil -> acc\n    | Cons _ t -> len t (acc #Int+ 1)\nlen (build {} Nil) 0\n", families::L_TYPE, n),
+        "deep-list-nontail" => format!(
+            "{}rec let build n = if n #Int== 0 then Nil else Cons n (build (n #Int- 1))\nrec let len l acc =\n    match l with\n    | Nil -> acc\n    | Cons _ t -> len t (acc #Int+ 1)\nlen (build {}) 0\n", families::L_TYPE, n),
+        "deep-closure-chain" => format!(
+            "rec let mk n f = if n #Int== 0 then f else mk (n #Int- 1) (\\x -> f (x #Int+ 1))\nin\nlet g = mk {} (\\x -> x)\ng 0\n", n),
+        f => families::source(f, n),
+    }
+}
+
+fn task_deep(family: &str, n: u64, lim: &Limits, t: &mut TaskOut) {
+    let src = deep_source(family, n);
+    match run_fresh("deep", &src, lim) {
+        Err(e) => t.obs = json!({"class": format!("compile-error {}", e.chars().take(60).collect::<String>())}),
+        Ok(o) => {
+            let replay = json!({"task": "deep", "family": family, "n": n, "stack": lim.stack, "mem": lim.mem});
+            mem_check(&o, lim.mem, "deep", &replay, t);
+            t.obs = json!({"class": o.outcome.class(), "after": o.after});
+        }
+    }
+}
+
+fn interrupt_source(family: &str) -> &'static str {
+    match family {
+        "loop-tail" => "rec let loop n = loop n\nloop 0\n",
+        "loop-mutual" => "rec\nlet a n = b n\nlet b n = a n\nin\na 0\n",
+        "loop-closure" => "rec let go k n = k n\nrec let self n = go self n\nself 0\n",
+        "loop-extern" => "let s = import! std.string.prim\nrec let loop n = if s.len \"abc\" #Int== 3 then loop n else 0\nloop 0\n",
+        "loop-alloc" => "type L = | Nil | Cons Int L\nrec let loop n = let t = Cons n Nil in loop n\nloop 0\n",
+        _ => panic!("unknown interrupt family"),
+    }
+}
+
+fn task_interrupt(family: &str, delay_ms: u64, t: &mut TaskOut) {
+    let src = interrupt_source(family);
+    let vm = new_vm();
+    let c = match compile(&vm, "intr", src) {
+        Ok(c) => c,
+        Err(e) => {
+            t.obs = json!({"class": format!("compile-error {}", e)});
+            return;
+        }
+    };
+    let vm2 = vm.clone();
+    let requested = Arc::new(std::sync::Mutex::new(None));
+    let r2 = requested.clone();
+    let h = std::thread::spawn(move || {
+        std::thread::sleep(Duration::from_millis(delay_ms));
+        *r2.lock().unwrap() = Some(Instant::now());
+        vm2.interrupt();
+    });
+    let o = run(&vm, "intr", c);
+    let done = Instant::now();
+    h.join().unwrap();
+    let lat = requested.lock().unwrap().map(|t0| done.saturating_duration_since(t0).as_millis() as u64);
+    t.obs = json!({"class": o.class(), "latency_ms": lat});
+}
+
+// ------------------------------------------------------------------------------------- child
+
+fn child() {
+    gv::child::serve(|input| {
+        let v: Value = serde_json::from_str(input).unwrap();
+        let mut t = TaskOut::default();
+        match v["t"].as_str().unwrap() {
+            "gc" => task_gc(v["seed"].as_u64().unwrap(), v["n"].as_u64().unwrap(), &mut t),
+            "verify-surf" => task_verify_surf(v["seed"].as_u64().unwrap(), v["n"].as_u64().unwrap(), &mut t),
+            "stack" => task_stack(
+                v["family"].as_str().unwrap(),
+                v["n"].as_u64().unwrap(),
+                v["threshold"].as_u64().map(|x| x as u32),
+                v["seed"].as_u64().unwrap_or(1),
+                &mut t,
+            ),
+            "mem" => task_mem(v["name"].as_str().unwrap(), v["source"].as_str().unwrap(), &mut t),
+            "mem-surf" => task_mem_surf(v["seed"].as_u64().unwrap(), v["n"].as_u64().unwrap(), &mut t),
+            "deep" => task_deep(
+                v["family"].as_str().unwrap(),
+                v["n"].as_u64().unwrap(),
+                &Limits { stack: v["stack"].as_u64().map(|x| x as u32), mem: v["mem"].as_u64().map(|x| x as usize), hook: false },
+                &mut t,
+            ),
+            "interrupt" => task_interrupt(v["family"].as_str().unwrap(), v["delay_ms"].as_u64().unwrap_or(30), &mut t),
+            other => panic!("unknown task {}", other),
+        }
+        t.to_json()
+    });
+}
+
 fn probe(args: &[String]) {
     let src = std::fs::read_to_string(&args[0]).unwrap();
-    let vm = new_vm();
-    if let Some(l) = args.get(1).and_then(|s| s.parse::<u32>().ok()) {
-        vm.context().set_max_stack_size(l);
-    }
-    if let Some(l) = args.get(2).and_then(|s| s.parse::<usize>().ok()) {
-        vm.set_memory_limit(l);
-    }
-    match compile(&vm, "probe", &src) {
+    let lim = Limits {
+        stack: args.get(1).and_then(|s| s.parse::<u32>().ok()),
+        mem: args.get(2).and_then(|s| s.parse::<usize>().ok()),
+        hook: true,
+    };
+    match run_fresh("probe", &src, &lim) {
         Err(e) => println!("compile error: {}", e),
-        Ok(c) => {
-            for f in &c.fns {
+        Ok(o) => {
+            for f in &o.fns {
                 println!("{:?} {} args={} max={} splits={:?}", f.path, f.name, f.args, f.max_stack_size, f.splits);
                 let h = heights(f);
                 for (pc, i) in f.instrs.iter().enumerate() {
@@ -86,68 +852,321 @@ fn probe(args: &[String]) {
                     Heights::Ok(_, peak) => println!("   peak={} max={}", peak, f.max_stack_size),
                     x => println!("   {:?}", x),
                 }
-                println!("   {}", fn_sexp(f));
             }
-            let before = vm.allocated_memory();
-            let o = run(&vm, "probe", c);
-            println!("outcome {:?}; allocated {} -> {}", o, before, vm.allocated_memory());
-            let (_, objs) = vm.verif_heap();
-            println!("heap objects {} sum {}", objs.len(), objs.iter().map(|o| o.1).sum::<usize>());
+            println!(
+                "outcome {:?}; allocated {} -> {} heap_sum {} peak_frames {} values_after {} frames_after {}",
+                o.outcome, o.before, o.after, o.heap_sum, o.peak_frames, o.values_after, o.frames_after
+            );
         }
     }
 }
 
-fn probe_surf(n: usize, seed: u64) {
-    let vm = new_vm();
-    let mut rng = gv::rng::Rng::new(seed, 77);
-    let mut stats: std::collections::BTreeMap<String, usize> = Default::default();
-    for i in 0..n {
-        let mut g = gv::surf::Gen::new(&mut rng);
-        let (e, _) = g.program(2 + (i % 4) as u32);
-        let src = gv::surf::program_text(&e);
-        match compile(&vm, &format!("s{}", i), &src) {
-            Err(e) => {
-                *stats.entry(format!("compile-error:{}", gv::surf::classify_error(&e))).or_default() += 1;
+/// Merge a task result into the output files. Returns the observation.
+fn merge(out: &mut Out, res: &Result<String, String>, task: &Value, known_crash: Option<(&str, &str)>) -> Option<Value> {
+    match res {
+        Ok(s) => {
+            let v: Value = serde_json::from_str(s).unwrap();
+            for c in v["cases"].as_array().unwrap() {
+                out.case(c[0].as_str().unwrap(), c[1].as_str().unwrap());
             }
-            Ok(c) => {
-                for f in &c.fns {
-                    let k = match heights(f) {
-                        Heights::Ok(_, peak) if peak == f.max_stack_size => "exact".to_string(),
-                        Heights::Ok(_, peak) if peak < f.max_stack_size => {
-                            println!("LOOSE peak {} max {} in {}\n{}", peak, f.max_stack_size, f.name, src);
-                            "loose".to_string()
-                        }
-                        Heights::Ok(_, peak) => {
-                            println!("EXCEEDED peak {} max {} in {}\n{}", peak, f.max_stack_size, f.name, src);
-                            "exceeded".to_string()
-                        }
-                        Heights::Unsupported(w) => format!("unsupported:{}", w),
-                        Heights::Bad(pc, w) => {
-                            println!("BAD pc {} {} in {} {:?}\n{}", pc, w, f.name, f.splits, src);
-                            format!("bad:{}", w.split(' ').next().unwrap())
-                        }
-                    };
-                    *stats.entry(k).or_default() += 1;
-                }
+            for o in v["oracle"].as_array().unwrap() {
+                out.oracle_fail(o["fingerprint"].as_str().unwrap(), o["what"].as_str().unwrap(), o["replay"].clone());
             }
+            for (k, n) in v["counts"].as_object().unwrap() {
+                out.add(k, n.as_u64().unwrap());
+            }
+            for c in v["classes"].as_array().unwrap() {
+                out.class(c.as_str().unwrap().to_string());
+            }
+            for s in v["samples"].as_array().unwrap() {
+                out.sample(s.clone());
+            }
+            Some(v["obs"].clone())
+        }
+        Err(class) => {
+            // the implementation took the process down (or hung) on this task
+            let kind = task["t"].as_str().unwrap_or("?");
+            let fam = task["family"].as_str().or(task["name"].as_str()).unwrap_or("-");
+            let fam = fam.split('#').next().unwrap();
+            let (fp, what) = match known_crash {
+                Some((fp, what)) => (fp.to_string(), what.to_string()),
+                None => (
+                    format!("crash:{}:{}:{}", kind, fam, class),
+                    format!("the implementation ended the process ({}) while running task {}", class, task),
+                ),
+            };
+            out.oracle_fail(&fp, &what, task.clone());
+            out.count(&format!("crash:{}:{}", kind, class));
+            None
         }
     }
-    println!("{:#?}", stats);
+}
+
+fn run_tasks(out: &mut Out, tasks: &[Value], chunk: usize, timeout: Duration) -> Vec<Option<Value>> {
+    let inputs: Vec<String> = tasks.iter().map(|t| t.to_string()).collect();
+    let results = gv::child::batch(&["--child"], &inputs, chunk, timeout);
+    tasks.iter().zip(results.iter()).map(|(t, r)| merge(out, r, t, None)).collect()
+}
+
+/// One deep-recursion / deep-data task in its own child process; the stderr of a dead child tells a
+/// native stack overflow from other crashes.
+fn run_deep(out: &mut Out, task: &Value, allowed: &[&str]) {
+        let exit = gv::child::run(&["--child"], format!("{}\n", serde_json::to_string(&task.to_string()).unwrap()).as_bytes(), Duration::from_secs(600));
+        let fam = task["family"].as_str().unwrap();
+        let (class, stderr, stdout) = match &exit {
+            gv::child::Exit::Ok(o) => ("exit:0".to_string(), String::new(), o.clone()),
+            gv::child::Exit::Code(c, o, e) => (format!("exit:{}", c), e.clone(), o.clone()),
+            gv::child::Exit::Signal(s, o, e) => (format!("signal:{}", s), e.clone(), o.clone()),
+            gv::child::Exit::Timeout(o) => ("timeout".to_string(), String::new(), o.clone()),
+        };
+        let answer = stdout.lines().find_map(|l| l.strip_prefix("R ")).and_then(|r| serde_json::from_str::<String>(r).ok());
+        match answer {
+            Some(a) => {
+                let obs = merge(out, &Ok(a), task, None).unwrap_or(Value::Null);
+                let c = obs["class"].as_str().unwrap_or("?").to_string();
+                out.count(&format!("deep:{}:{}", fam, c));
+                out.class(format!("deep:{}:{}:{}", fam, task["stack"], c));
+                if !allowed.contains(&c.as_str()) {
+                    out.oracle_fail(
+                        &format!("limit-outcome:{}:{}", fam, c.split(':').take(2).collect::<Vec<_>>().join(":")),
+                        &format!("{} ended with {} (allowed: {:?})", task, c, allowed),
+                        task.clone(),
+                    );
+                }
+            }
+            None => {
+                let native = stderr.contains("overflowed its stack");
+                let fp = if native { format!("native-stack-exhausted:{}", fam) } else { format!("crash:deep:{}:{}", fam, class) };
+                out.count(&format!("deep:{}:{}", fam, if native { "native-stack-overflow" } else { "crash" }));
+                out.oracle_fail(
+                    &fp,
+                    &format!("{}: the process died ({}){}", task, class, if native { ": the host's native stack overflowed" } else { "" }),
+                    task.clone(),
+                );
+            }
+        }
 }
 
 fn main() {
     gv::quiet_panics();
     let raw: Vec<String> = std::env::args().skip(1).collect();
+    if raw.first().map(|s| s.as_str()) == Some("--child") {
+        child();
+        return;
+    }
     if raw.first().map(|s| s.as_str()) == Some("--probe") {
         probe(&raw[1..]);
         return;
     }
-    if raw.first().map(|s| s.as_str()) == Some("--probe-surf") {
-        probe_surf(raw[1].parse().unwrap(), raw.get(2).and_then(|s| s.parse().ok()).unwrap_or(1));
+    if raw.first().map(|s| s.as_str()) == Some("--probe-family") {
+        let n: u64 = raw[2].parse().unwrap();
+        let src = families::source(&raw[1], n);
+        println!("{}", src);
+        let o = run_fresh("fam", &src, &Limits { hook: true, ..Default::default() }).unwrap();
+        println!("{:?} peak_frames {}", o.outcome, o.peak_frames);
+        match families::script(&raw[1], n, &o.fns) {
+            Ok((tbl, evs)) => println!("(1 stack 100000 ({}) ({}))", tbl, evs),
+            Err(e) => println!("script error {:?}", e),
+        }
+        println!("threshold {:?}", threshold("fam", &src, 1 << 27));
         return;
     }
     let args = Args::parse();
-    let out = Out::new(&args.out);
-    let _ = Duration::from_secs(1);
+    let mut out = Out::new(&args.out);
+    let thorough = args.thorough();
+    let seed = args.seed;
+
+    if let Some(rp) = &args.replay {
+        let v: Value = serde_json::from_str(&std::fs::read_to_string(rp).unwrap()).unwrap();
+        let mut task = v["case"].clone();
+        if task["t"].is_null() {
+            task["t"] = task["task"].clone();
+        }
+        let kind = task["t"].as_str().unwrap_or("").to_string();
+        match kind.as_str() {
+            "gc" => {
+                let n = task["seq"].as_u64().map(|x| x + 1).unwrap_or(100);
+                task["n"] = json!(n);
+            }
+            "verify" | "mem-surf" => {
+                // a single program: compile + verify + limit ladder
+                let src = task["source"].as_str().unwrap().to_string();
+                println!("{}", src);
+                task = json!({"t": "mem", "name": "replay#0", "source": src});
+            }
+            "deep" => {
+                println!("task {}", task);
+                run_deep(&mut out, &task, &["ok", "err:stack", "err:oom"]);
+                out.finish();
+                println!("see oracle.jsonl in the output directory");
+                return;
+            }
+            _ => (),
+        }
+        println!("task {}", task);
+        let r = gv::child::batch(&["--child"], &[task.to_string()], 1, Duration::from_secs(1200));
+        match &r[0] {
+            Ok(s) => {
+                let v: Value = serde_json::from_str(s).unwrap();
+                println!("observation: {}", v["obs"]);
+                for o in v["oracle"].as_array().unwrap() {
+                    println!("ORACLE FAILURE {}: {}", o["fingerprint"], o["what"]);
+                }
+                println!("{} correspondence cases", v["cases"].as_array().unwrap().len());
+            }
+            Err(c) => println!("the child process ended: {}", c),
+        }
+        merge(&mut out, &r[0], &task, None);
+        out.finish();
+        return;
+    }
+
+    // ---- gc
+    let n_gc = if thorough { 100 } else { 8 };
+    let tasks: Vec<Value> = (0..n_gc).map(|i| json!({"t": "gc", "seed": seed.wrapping_mul(1000) + i, "n": 100})).collect();
+    run_tasks(&mut out, &tasks, 8, Duration::from_secs(600));
+
+    // ---- verify on generated programs
+    let n_v = if thorough { 60 } else { 4 };
+    let tasks: Vec<Value> = (0..n_v).map(|i| json!({"t": "verify-surf", "seed": seed.wrapping_mul(1000) + i, "n": 150})).collect();
+    run_tasks(&mut out, &tasks, 4, Duration::from_secs(900));
+
+    // ---- stack families: thresholds at small sizes (bisected), then constancy for tail families
+    let small: &[u64] = if thorough { &[0, 1, 2, 3, 4, 5, 8, 13, 40, 100, 333, 1000, 3000] } else { &[0, 1, 2, 3, 7, 40, 200] };
+    let mut tasks = vec![];
+    for f in families::STACK_FAMILIES {
+        for &n in small {
+            tasks.push(json!({"t": "stack", "family": f.name, "n": n, "seed": seed}));
+        }
+    }
+    let obs = run_tasks(&mut out, &tasks, 6, Duration::from_secs(900));
+    let mut thr: std::collections::BTreeMap<String, Vec<(u64, u64, u64)>> = Default::default();
+    for o in obs.iter().flatten() {
+        if let (Some(f), Some(n), Some(t), Some(p)) = (o["family"].as_str(), o["n"].as_u64(), o["threshold"].as_u64(), o["peak_frames"].as_u64()) {
+            thr.entry(f.to_string()).or_default().push((n, t, p));
+        }
+    }
+    // big sizes: tail families at the threshold found for the small ones
+    let big: &[u64] = if thorough { &[10_000, 100_000, 1_000_000] } else { &[10_000, 100_000] };
+    let mut tasks = vec![];
+    for f in families::STACK_FAMILIES.iter().filter(|f| f.tail) {
+        if let Some(v) = thr.get(f.name) {
+            let t_max = v.iter().filter(|x| x.0 >= 2).map(|x| x.1).max().unwrap_or(0);
+            for &n in big {
+                tasks.push(json!({"t": "stack", "family": f.name, "n": n, "threshold": t_max, "seed": seed}));
+            }
+            if f.name == "tail-direct" && !thorough {
+                tasks.push(json!({"t": "stack", "family": f.name, "n": 1_000_000, "threshold": t_max, "seed": seed}));
+            }
+        }
+    }
+    let obs2 = run_tasks(&mut out, &tasks, 1, Duration::from_secs(1800));
+    for o in obs2.iter().flatten() {
+        if let (Some(f), Some(n), Some(t), Some(p)) = (o["family"].as_str(), o["n"].as_u64(), o["threshold"].as_u64(), o["peak_frames"].as_u64()) {
+            thr.entry(f.to_string()).or_default().push((n, t, p));
+        }
+    }
+    // the oracle for "tail calls run in constant stack" / "non-tail recursion is bounded by the limit"
+    for f in families::STACK_FAMILIES {
+        let v = match thr.get(f.name) {
+            Some(v) => v,
+            None => continue,
+        };
+        let steady: Vec<&(u64, u64, u64)> = v.iter().filter(|x| x.0 >= 2).collect();
+        if f.tail {
+            let t0 = steady.iter().map(|x| x.1).min().unwrap_or(0);
+            let t1 = steady.iter().map(|x| x.1).max().unwrap_or(0);
+            let p0 = steady.iter().map(|x| x.2).min().unwrap_or(0);
+            let p1 = steady.iter().map(|x| x.2).max().unwrap_or(0);
+            if t0 != t1 || p0 != p1 {
+                out.oracle_fail(
+                    &format!("tail-call-grows:{}", f.name),
+                    &format!("stack need of the tail-recursive family {} depends on the iteration count: (n, threshold, peak frames) = {:?}", f.name, v),
+                    json!({"task": "stack", "family": f.name, "n": steady.last().map(|x| x.0)}),
+                );
+            }
+            out.count(&format!("tail-constant:{}", f.name));
+            out.sample(json!({"family": f.name, "n_threshold_peakframes": v}));
+        } else {
+            // deeper recursion must need more stack
+            let mut w: Vec<(u64, u64, u64)> = v.clone();
+            w.sort();
+            for p in w.windows(2) {
+                if p[1].1 <= p[0].1 && p[1].0 > p[0].0 {
+                    out.oracle_fail(
+                        &format!("nontail-not-growing:{}", f.name),
+                        &format!("deeper recursion does not need more stack: {:?}", w),
+                        json!({"task": "stack", "family": f.name, "n": p[1].0}),
+                    );
+                }
+            }
+            out.sample(json!({"family": f.name, "n_threshold_peakframes": w}));
+        }
+    }
+
+    // ---- memory
+    let mut rng = gv::rng::Rng::new(seed, 0xC07E);
+    let n_mem = if thorough { 300 } else { 27 };
+    let tasks: Vec<Value> = families::mem_programs(&mut rng, n_mem)
+        .into_iter()
+        .map(|(name, src)| json!({"t": "mem", "name": name, "source": src}))
+        .collect();
+    run_tasks(&mut out, &tasks, 3, Duration::from_secs(900));
+    let n_ms = if thorough { 40 } else { 3 };
+    let tasks: Vec<Value> = (0..n_ms).map(|i| json!({"t": "mem-surf", "seed": seed.wrapping_mul(1000) + i, "n": 60})).collect();
+    run_tasks(&mut out, &tasks, 2, Duration::from_secs(900));
+
+    // ---- deep recursion / deep data: one child each
+    let mut deep: Vec<(Value, Vec<&str>)> = vec![
+        (json!({"t": "deep", "family": "nontail-direct", "n": 1_000_000u64, "stack": 100_000}), vec!["err:stack"]),
+        (json!({"t": "deep", "family": "nontail-closure", "n": 300_000u64, "stack": 50_000}), vec!["err:stack"]),
+        (json!({"t": "deep", "family": "nontail-direct", "n": 1_000_000u64, "mem": 4_000_000_000u64}), vec!["ok", "err:oom", "err:stack"]),
+        (json!({"t": "deep", "family": "deep-list-nontail", "n": 200_000u64, "stack": 10_000, "mem": 1_000_000_000u64}), vec!["err:stack"]),
+        (json!({"t": "deep", "family": "deep-list-tail", "n": 1_000_000u64, "mem": 1_000_000u64}), vec!["err:oom"]),
+        (json!({"t": "deep", "family": "deep-list-tail", "n": 1_000_000u64, "mem": 2_000_000_000u64}), vec!["ok", "err:oom"]),
+    ];
+    if thorough {
+        deep.push((json!({"t": "deep", "family": "deep-closure-chain", "n": 1_000_000u64, "mem": 2_000_000_000u64}), vec!["ok", "err:oom"]));
+        deep.push((json!({"t": "deep", "family": "nontail-mutual", "n": 1_000_000u64, "stack": 1_000_000}), vec!["err:stack"]));
+    }
+    for (task, allowed) in &deep {
+        run_deep(&mut out, task, allowed);
+    }
+
+    // ---- interrupt
+    for fam in ["loop-tail", "loop-mutual", "loop-closure", "loop-extern", "loop-alloc"] {
+        for delay in if thorough { vec![0u64, 5, 30, 200] } else { vec![0u64, 30] } {
+            let task = json!({"t": "interrupt", "family": fam, "delay_ms": delay});
+            let r = gv::child::batch(&["--child"], &[task.to_string()], 1, Duration::from_secs(60));
+            match &r[0] {
+                Ok(_) => {
+                    let obs = merge(&mut out, &r[0], &task, None).unwrap_or(Value::Null);
+                    let class = obs["class"].as_str().unwrap_or("?");
+                    let lat = obs["latency_ms"].as_u64().unwrap_or(0);
+                    out.count(&format!("interrupt:{}:{}", fam, class));
+                    out.class(format!("interrupt:{}:{}", fam, class));
+                    if class != "err:interrupted" {
+                        out.oracle_fail(&format!("interrupt-wrong-outcome:{}", fam), &format!("endless loop {} ended with {}", fam, class), task.clone());
+                    } else if lat > 5000 {
+                        out.oracle_fail(&format!("interrupt-slow:{}", fam), &format!("{} ms between the request and Interrupted", lat), task.clone());
+                    }
+                }
+                Err(class) => {
+                    out.oracle_fail(
+                        &format!("interrupt-ignored:{}:{}", fam, class),
+                        &format!("an interrupt request did not stop the endless loop {} ({})", fam, class),
+                        task.clone(),
+                    );
+                }
+            }
+        }
+    }
+    // the model's `execute` loop on a few (request poll, segments) pairs — no implementation side,
+    // the payload is the specification of promptness itself
+    for (k, segs) in [(0u64, 5u64), (3, 10), (10, 10), (11, 10), (1, 1)] {
+        let ran = k.min(segs);
+        let end = if k < segs { "interrupted" } else { "finished" };
+        out.case(&format!("intr {} {}", k, segs), &format!("({} {})", ran, end));
+    }
     out.finish();
 }
